@@ -258,6 +258,9 @@ def run_unit(unit_path, tier='quick', seed=0, hooks=None):
             repairs += notes
             open(base, 'w').write(text)
             r = run_verus(base)
+        lost = list(getattr(ex, 'lost', []))
+        if lost:
+            repairs = repairs + ['skipped directive with a lost anchor: ' + x for x in lost]
         res['auto_repairs'] = repairs
         classify_base(res, ex, name, r)
         if repairs:
